@@ -497,7 +497,11 @@ class StandardBaseContext(Context,
             if key in f_cache:
                 cprec, cvalue = f_cache[key]
                 if cprec >= prec:
-                    return +cvalue
+                    try:
+                        return +cvalue
+                    except TypeError:
+                        # not a number (e.g. a tuple of results)
+                        return cvalue
             value = f(*args, **kwargs)
             f_cache[key] = (prec, value)
             return value
